@@ -658,9 +658,37 @@ def m_fold(I, c, args, fr):
         acc = I.call_value(args[2], [acc, x])
     return acc
 
+def _try_kind(c, fr, i):
+    t = resolve_targ(c, fr, i)
+    return base_name(t) if t is not None and t[0] == 'path' else None
+
+def _try_wrap(kind, v):
+    if kind == 'Result': return ok(v)
+    if kind == 'Option': return some(v)
+    if kind == 'ControlFlow': return Adt('ControlFlow', 'Continue', 0, [v])
+    raise Unsupported('try_fold over %s' % kind)
+
 @model('Iterator::try_fold', 'Iterator::try_for_each')
 def m_try_fold(I, c, args, fr):
-    raise Unsupported('try_fold')
+    # try_fold::<B, F, R>(&mut self, init, f) / try_for_each::<F, R>(&mut self, f): stop at the first residual (Err / None / Break)
+    fold = c.name == 'try_fold'
+    kind = _try_kind(c, fr, 2 if fold else 1)
+    acc = args[1] if fold else UNIT
+    f = args[2] if fold else args[1]
+    it = deref(args[0]) if isinstance(args[0], Ref) else args[0]
+    while True:
+        x = iter_next(I, it)
+        if x is STOP:
+            if kind is None:
+                raise Unsupported('try_fold: unknown Try type')
+            return _try_wrap(kind, acc)
+        r = I.call_value(f, [acc, x] if fold else [x])
+        if not isinstance(r, Adt) or r.ty not in ('Result', 'Option', 'ControlFlow'):
+            raise Unsupported('try_fold over %s' % short(r))
+        kind = r.ty
+        if r.variant in ('Err', 'None', 'Break'):
+            return r
+        acc = r.fields[0]
 
 @model('Iterator::max', 'Iterator::min')
 def m_iter_max(I, c, args, fr):
